@@ -1224,7 +1224,11 @@ where
             // always true
             if let Some(ablob) = safe.active_blob.take() {
                 let ablob = (*ablob).into_inner();
-                ablob.fsyncdata().await?;
+                if let Err(e) = ablob.fsyncdata().await {
+                    // Blob should not be lost when sync fails: keep it as active
+                    safe.active_blob = Some(Box::new(ASRwLock::new(ablob)));
+                    return Err(e.into());
+                }
                 safe.blobs.write().await.push(ablob).await;
             }
             Ok(())
